@@ -523,13 +523,18 @@ pub fn c10_process_world(ctx: &Ctx, scn: &crate::props::c10::Scn, sc: &Scale, ex
     }
     // when the file declares the area / k_exp as metadata, every other such run lets the CLI take them from
     // there (what is declared in the file is part of the evaluation); decided by the data, not by a PRNG
-    let has_meta = |k: &str| scn.base.meta.iter().any(|(key, _)| key == k);
+    let legacy_of = |k: &str| match k {
+        "CTE_AREAREF" => "Area_ref",
+        "CTE_KEXP" => "kexp",
+        _ => "Localizacion",
+    };
+    let has_meta = |k: &str| scn.base.meta.iter().any(|(key, _)| key == k || key == legacy_of(k));
     let from_meta = scn.proc_seeds.first().map(|s| s % 2 == 0).unwrap_or(false);
     let mut eff_area = sc.area;
     if !(from_meta && has_meta("CTE_AREAREF")) {
         base_args.push("-a".into());
         base_args.push(format!("{}", scn.cfg.area));
-    } else if let Some(a) = scn.base.meta.iter().find(|(k, _)| k == "CTE_AREAREF").and_then(|(_, v)| v.trim().parse::<f64>().ok()) {
+    } else if let Some(a) = scn.base.meta.iter().find(|(k, _)| k == "CTE_AREAREF" || k == "Area_ref").and_then(|(_, v)| v.trim().parse::<f64>().ok()) {
         eff_area = a; // the per-m2 tolerances must use the area the CLI actually uses
     }
     let sc = &Scale { area: eff_area, ..sc.clone() };
